@@ -391,6 +391,11 @@ func deviations(ps []Pkt, specs []ConnSpec, fn func(devHist)) {
 			}
 		} else {
 			fn(devHist{insertAt(ps, i+1, p), "dupctl"})
+			// a retransmitted control packet (SYN, SYN+ACK, handshake ACK, FIN) may also arrive
+			// late: at every later position of the history
+			for pos := i + 2; pos <= len(ps); pos++ {
+				fn(devHist{insertAt(ps, pos, p), "dupctl-late"})
+			}
 		}
 	}
 	// overlapping retransmission: any byte range that is not one of the captured
